@@ -37,8 +37,8 @@ NOTE = {
  "C08": "Trusted as C01; Sender/Router completions arbitrary. The router-error defect found here was repaired (fix b64baad).",
  "C11": "Trusted as C01; sequential (fault-free, interference-free) runs for the progress lemmas by definition of the lemma. One known finding (id collision blocks the time-out of a promise for ever).",
  "C12": "Trusted as C01; category model_checking over sequential paths. Goroutine-level behaviour (Signal, Shutdown races, AIO backpressure with blocking channels) is not encoded: seeded changes of that kind are not detected.",
- "C13": "Trusted as C01 plus the front-end stubs (protobuf structs as plain Go values, jwt fork, json contracts). HTTP handlers are not executed.",
- "C15": "Trusted as C13; HTTP side not executed.",
+ "C13": "Trusted as C01 plus the front-end stubs (protobuf structs as plain Go values, gin binding contract stub, jwt fork, json contracts). Both front ends are executed handler-to-reply; wire parsing is outside.",
+ "C15": "Trusted as C13.",
  "C17": "Trusted: the SQL statement model is the same for both dialects except the declared differences. Known findings: the Postgres 32-bit INTEGER columns (5 entries).",
  "C18": "Trusted: bounded non-blocking channel model; goroutine timing outside. k = 3 operations quick, 4 thorough.",
  "C20": "Trusted as C01/C13; wire encodings outside.",
